@@ -192,6 +192,19 @@ def handle (op : String) (args : List String) : Option String :=
           let E := floatEnv tbl
           pure (boolStr (short == "0" && m == n && (cloud.zip got).all (fun (s, t) => stepOk E s t)))
       | _ => none
+  | "c15.holds.splatply", n :: rest => do
+      -- PLY splat export: every attribute comes back as its float32 rounding, same count and order
+      let n ← nat? n
+      let fs ← floats? (rest.take (14 * n))
+      let orig ← splatsPlain n fs
+      match rest.drop (14 * n) with
+      | m :: back => do
+          let m ← nat? m
+          let got ← splatsPlain m (← floats? back)
+          let E := floatEnv []
+          pure (boolStr (m == n && (orig.zip got).all fun (s, t) =>
+            (splatTo s).map (fun x => (E.of32 (E.to32 x)).toBits) == (splatTo t).map Float.toBits))
+      | _ => none
   | _, _ => handleSpz op args
 
 end Driver.C15
